@@ -289,6 +289,44 @@ def check(case):
                     _cls['v'] = ':exact-kernel-eligibility-depends-on-junction-owner'
             except Exception:
                 pass
+            if not _cls['v']:
+                # classification only (finding F-C06b): at a junction sharper than 50 degrees the pulses of one wire
+                # lie within 1.1 segment lengths of the other wire's segments, where the inherited criterion
+                # t <= 1.1 applies the exact (self-term) kernel to wires thicker than 1e-4 wavelength - although
+                # the observation point is not on that segment; which halves this hits depends on the direction
+                # and order of the wires.  Attributed to this only if the sharpest junction is below 50 degrees,
+                # some wire is thick, and BOTH descriptions agree in every compared channel once all radii are thin
+                try:
+                    amin = 180.0
+                    for j_ in t0.junctions:
+                        for x_ in range(len(j_)):
+                            for y_ in range(x_ + 1, len(j_)):
+                                da_ = [(t0.objs[w_]['segs'][1] - t0.objs[w_]['segs'][0]) if e_ == 0 else
+                                       (t0.objs[w_]['segs'][-2] - t0.objs[w_]['segs'][-1]) for (w_, e_) in (j_[x_], j_[y_])]
+                                cs_ = float(da_[0] @ da_[1] / np.linalg.norm(da_[0]) / np.linalg.norm(da_[1]))
+                                amin = min(amin, np.degrees(np.arccos(max(-1.0, min(1.0, cs_)))))
+                    srm_ = 1e-4 * 299.8 / case['f']
+                    if amin < 50.0 and any(o_['r'] > srm_ for o_ in t0.objs):
+                        zz = []
+                        for c_ in (base, var):
+                            ct = copy.deepcopy(c_)
+                            for o_ in ct['objs']:
+                                o_['r'] = min(o_['r'], 0.5 * srm_)
+                            mt = common.solved(ct)
+                            zz.append((np.array([x.impedance for x in mt.sources]), mt))
+                        okz = np.abs(zz[0][0] - zz[1][0]).max() <= tol * np.abs(zz[0][0]).max()
+                        pts_ = near_points(case, t0)
+                        for p_ in pts_:
+                            ff_ = []
+                            for _, mt in zz:
+                                mt.compute_near_field(p_, [1, 1, 1], [1, 1, 1])
+                                ff_.append((np.array(mt.e_field[0]), np.array(mt.h_field[0])))
+                            if np.linalg.norm(ff_[0][0] - ff_[1][0]) > 3 * tol * np.linalg.norm(ff_[0][0]) + 1e-300:
+                                okz = False
+                        if okz:
+                            _cls['v'] = ':acute-junction-of-thick-wires:exact-kernel-criterion'
+                except Exception:
+                    pass
         return _cls['v']
 
     # impedances
